@@ -102,6 +102,8 @@ structure Cfg where
   members : List Row        -- public member table
   listener : Listener       -- the DeviceListener registered before the history starts
   protos : List Proto
+  connected0 : Nat          -- how many of them `FacadeAppleTV.connect()` has already registered in
+                            -- `_protocol_handlers` when the history starts (the rest is still connecting)
 
 /-- `__shield_is_blocking` of one object: attribute missing / False / True -/
 abbrev Shield := Option Bool
@@ -116,6 +118,7 @@ inductive Out
   | pass                          -- the guard let the call through
   | badMember
   | delivered (b : Bool)          -- did the user's PushListener receive the update
+  | faulted                       -- push_updater.start(): a protocol's updater raised from its start()
   | gone                          -- the user no longer holds the object this member lives on
   deriving DecidableEq, Repr
 
@@ -134,6 +137,8 @@ structure St where
   flying : Bool               -- an exception raised by user code is propagating
   listener : Listener         -- what `StateProducer.__listener` of the device object refers to now
   pushListener : Bool         -- the user's PushListener is registered on the FacadePushUpdater
+  handlers : Nat              -- protocols registered in `_protocol_handlers` so far: `connect()` awaits the
+                              -- protocols' connect() one after the other, anything can happen in between
   deviceHeld : Bool           -- the user still holds the device object (object 0) itself; the interface
                               -- objects obtained from it earlier stay in the user's hands regardless
   deriving Repr
@@ -143,7 +148,8 @@ def init (cfg : Cfg) : St :=
   { callsMade := 0, pending := none, tasks := 0, nextId := 0, closeLog := [],
     shield := List.replicate cfg.nObjs (some false), pushOn := false,
     notified := [], reports := [], inner := [], raised := false, flying := false,
-    listener := cfg.listener, pushListener := true, deviceHeld := true }
+    listener := cfg.listener, pushListener := true, handlers := cfg.connected0,
+    deviceHeld := true }
 
 /-- `shield.is_blocking(obj)` -/
 def isBlocking (s : St) (o : Nat) : Bool := s.shield[o]? == some (some true)
@@ -236,7 +242,8 @@ def closeF (cfg : Cfg) : Nat → St → St
         let s := { s with pushOn := false }
         let s := { s with pending := some s.nextId, nextId := s.nextId + 1, tasks := 1 }
         let s := blockEverything s
-        if s.raised then s else closeProtos cfg (closeF cfg fuel) 0 cfg.protos s
+        -- only what connect() has registered so far is in `_protocol_handlers`
+        if s.raised then s else closeProtos cfg (closeF cfg fuel) 0 (cfg.protos.take s.handlers) s
 
 /-- fuel used by the top-level entry points (2 levels of `close` are ever needed) -/
 abbrev topFuel : Nat := 2
@@ -247,6 +254,12 @@ inductive Ev
   | userClose                     -- atv.close()
   | api (m : Nat)                 -- a call of public member number m on the object the user holds
   | pushStart                     -- push_updater.start() on the held FacadePushUpdater
+  | pushStartFault                -- … during which a protocol's own updater raises from its start(): the
+                                  -- facade has made itself the listener of every updater up to that one
+                                  -- (`instance.listener = self` precedes `instance.start()`), the main one included
+  | connectNext                   -- the connect() of the protocol that `FacadeAppleTV.connect()` is awaiting
+                                  -- completes: it is registered (facade.py:718-728); connect() touches neither
+                                  -- the shield flags nor `_pending_tasks`
   | pushStop                      -- push_updater.stop()
   | push (i : Nat) (b : Beh)      -- protocol i's push updater posts an update; b = the PushListener handler
   | setListener (some : Bool)     -- the application assigns `atv.listener` again: an object (the same one or a
@@ -276,6 +289,9 @@ def step (cfg : Cfg) (s : St) : Ev → St × Out
   | .setPushListener b => ({ s with pushListener := b }, .none)
   | .pushStart =>
     if isBlocking s cfg.pushObj then (s, .blocked) else ({ s with pushOn := true }, .pass)
+  | .pushStartFault =>
+    if isBlocking s cfg.pushObj then (s, .blocked) else ({ s with pushOn := true }, .faulted)
+  | .connectNext => ({ s with handlers := s.handlers + 1 }, .none)
   | .pushStop =>
     if isBlocking s cfg.pushObj then (s, .blocked) else ({ s with pushOn := false }, .pass)
   | .push i b =>
@@ -293,8 +309,12 @@ def outputs (cfg : Cfg) (s : St) : List Ev → List Out
   | e :: es => (step cfg s e).2 :: outputs cfg (step cfg s e).1 es
 
 /-- the facade as generated from the source tree -/
-def facadeCfg (listener : Listener) (protos : List Proto) : Cfg :=
+def facadeCfgC (listener : Listener) (protos : List Proto) (connected0 : Nat) : Cfg :=
   { maxCalls := Gen.C09.maxCalls, nObjs := Gen.C09.objects.length, pushObj := Gen.C09.pushObj,
-    members := Gen.C09.members, listener := listener, protos := protos }
+    members := Gen.C09.members, listener := listener, protos := protos, connected0 := connected0 }
+
+/-- … with every protocol connected before the history starts -/
+def facadeCfg (listener : Listener) (protos : List Proto) : Cfg :=
+  facadeCfgC listener protos protos.length
 
 end PyatvModel.C09
